@@ -5,7 +5,10 @@ import N2k.Lemmas.RxRun
 All theorems are about `N2k.Rx.rx` / `outputs` / `delivered` of `Model/Rx.lean` (the functions the `rx` engine
 executes). A history `evs` is any list of (arrival time, frame); arrival times are arbitrary (no monotonicity, any
 32-bit wrap), the slot count `N` is arbitrary. `WFrame` (8 byte buffer, DLC ≤ 8) is the contract of the CAN driver.
-`handledFrames c evs` are the frames that pass the ISO-TP gate (C10) and the only-known-messages gate.
+`handledFrames c evs` are the frames that pass the ISO-TP gate and the only-known-messages gate; `c` carries the
+application's PGN lists (`Set/Extend…Messages`). Histories MAY contain TP.CM RTS/BAM frames: they take slots as TP
+sessions (`rxTPOpen`), such a slot is never a fast-packet continuation target, and the safety theorems hold with them;
+the completeness theorems assume that no TP session is opened (`isTPOpen`) since TP sessions compete for the slots.
 -/
 namespace N2k.C02
 open N2k.Rx
@@ -21,16 +24,16 @@ and PGN arrived in between: bytes of different messages or senders are never com
 theorem C02_no_corruption (c : Cfg) (N : Nat) (evs : List (Nat × Frame)) (hwf : ∀ e ∈ evs, WFrame e.2)
     (i : Nat) (m : Msg) (h : (outputs c (init N) evs)[i]? = some (some m)) :
     ∃ e, evs[i]? = some e ∧ handled c e.2 = true ∧
-      Delivery isFP (handledFrames c (evs.take (i+1))) e.2 m := by
-  obtain ⟨e, he, hh, hd, _⟩ := outputs_spec c evs (init N) [] (Inv.init isFP N) hwf i m h
+      Delivery (isFP c) (handledFrames c (evs.take (i+1))) e.2 m := by
+  obtain ⟨e, he, hh, hd, _⟩ := outputs_spec c evs (init N) [] (Inv.init (isFP c) N) hwf i m h
   exact ⟨e, he, hh, by simpa using hd⟩
 
 /-- the same statement with the witness spelled out -/
 theorem C02_no_corruption_explicit (c : Cfg) (N : Nat) (evs : List (Nat × Frame)) (hwf : ∀ e ∈ evs, WFrame e.2)
     (i : Nat) (m : Msg) (h : (outputs c (init N) evs)[i]? = some (some m)) :
     ∃ e, evs[i]? = some e ∧
-      ((isFP e.2.pgn = false ∧ m = ⟨e.2.prio % 8, e.2.pgn, e.2.src, e.2.dst, e.2.len, e.2.b.take e.2.len⟩) ∨
-       (isFP e.2.pgn = true ∧ ∃ w f0,
+      ((isFP c e.2.pgn = false ∧ m = ⟨e.2.prio % 8, e.2.pgn, e.2.src, e.2.dst, e.2.len, e.2.b.take e.2.len⟩) ∨
+       (isFP c e.2.pgn = true ∧ ∃ w f0,
           w <:+ keyHist (handledFrames c (evs.take (i+1))) e.2.pgn e.2.src ∧
           w.head? = some f0 ∧ w.getLast? = some e.2 ∧
           (∀ g ∈ w, g.pgn = f0.pgn ∧ g.src = f0.src) ∧
@@ -57,7 +60,7 @@ theorem C02_oversize_never_delivered (c : Cfg) (N : Nat) (evs : List (Nat × Fra
 
 /-- single-frame PGNs are delivered with the frame's DLC as length (and the frame's fields and bytes) -/
 theorem C02_single_frame_dlc (c : Cfg) (N : Nat) (evs : List (Nat × Frame)) (hwf : ∀ e ∈ evs, WFrame e.2)
-    (i : Nat) (m : Msg) (h : (outputs c (init N) evs)[i]? = some (some m)) (hsf : isFP m.pgn = false) :
+    (i : Nat) (m : Msg) (h : (outputs c (init N) evs)[i]? = some (some m)) (hsf : isFP c m.pgn = false) :
     ∃ e, evs[i]? = some e ∧ m.len = e.2.len ∧ m.data = e.2.b.take e.2.len ∧
       m.pgn = e.2.pgn ∧ m.src = e.2.src ∧ m.dst = e.2.dst ∧ m.prio = e.2.prio % 8 := by
   obtain ⟨e, he, _, hd⟩ := C02_no_corruption c N evs hwf i m h
@@ -71,13 +74,15 @@ theorem C02_single_frame_dlc (c : Cfg) (N : Nat) (evs : List (Nat × Frame)) (hw
     rw [← this, hfp] at hsf; cases hsf
 
 /-- each message is delivered exactly once: right after the delivery no reassembly slot holds the message's PGN and
-source (the slot has been released; nothing of the delivered message remains to be delivered again) -/
+source (the slot has been released; nothing of the delivered message remains to be delivered again); a TP session
+slot (C10) of the same PGN and source is a different reassembly and is not concerned -/
 theorem C02_slot_free_after_delivery (c : Cfg) (N : Nat) (evs : List (Nat × Frame)) (hwf : ∀ e ∈ evs, WFrame e.2)
     (i : Nat) (m : Msg) (h : (outputs c (init N) evs)[i]? = some (some m)) :
     ∀ j, j < N → ((run c (init N) (evs.take (i+1))).slot j).free = false →
+      ((run c (init N) (evs.take (i+1))).slot j).tp = false →
       ¬ (((run c (init N) (evs.take (i+1))).slot j).pgn = m.pgn ∧
          ((run c (init N) (evs.take (i+1))).slot j).src = m.src) := by
-  obtain ⟨_, _, _, _, hfree⟩ := outputs_spec c evs (init N) [] (Inv.init isFP N) hwf i m h
+  obtain ⟨_, _, _, _, hfree⟩ := outputs_spec c evs (init N) [] (Inv.init (isFP c) N) hwf i m h
   exact hfree
 
 /-- a chain has at most 32 frames, all with the sequence id of the first frame and frame counters 0, 1, 2, … -/
@@ -113,10 +118,10 @@ theorem C02_recycle_index_valid (st : St) (now : Nat)
 `C02_no_corruption`, which has no hypothesis on the number of senders or slots; restated for the record -/
 theorem C02_overload_safe (c : Cfg) (N : Nat) (evs : List (Nat × Frame)) (hwf : ∀ e ∈ evs, WFrame e.2) :
     ∀ i m, (outputs c (init N) evs)[i]? = some (some m) →
-      ∃ e, evs[i]? = some e ∧ handled c e.2 = true ∧ Delivery isFP (handledFrames c (evs.take (i+1))) e.2 m :=
+      ∃ e, evs[i]? = some e ∧ handled c e.2 = true ∧ Delivery (isFP c) (handledFrames c (evs.take (i+1))) e.2 m :=
   fun i m h => C02_no_corruption c N evs hwf i m h
 
-/-- **Completeness / exact delivery.** `Spec.outputs isFP Spec.empty` is the abstract reassembler of
+/-- **Completeness / exact delivery.** `Spec.outputs (isFP c) Spec.empty` is the abstract reassembler of
 `Spec/Reassembly.lean` (per PGN and source: a first frame supersedes, an in-sequence continuation frame – same sequence
 id, next counter – is appended, any other continuation frame discards the message as a whole, a complete message with
 announced length ≤ 223 is delivered once; single frames are delivered with the DLC as length). If at every first or
@@ -126,24 +131,26 @@ the frame sequence only), then the messages handed to the application are EXACTL
 in the same order: every interleaving, every loss / duplication / reordering pattern (they are just different
 `evs`), every arrival time (the 100 ms recycling is never needed), any slot count `N`. -/
 theorem C02_refines_spec (c : Cfg) (N : Nat) (evs : List (Nat × Frame)) (hwf : ∀ e ∈ evs, WFrame e.2)
-    (hfit : Spec.Fits N Spec.empty (handledFrames c evs)) :
-    delivered c (init N) evs = (Spec.outputs isFP Spec.empty (handledFrames c evs)).filterMap id :=
-  run_refines c evs (init N) [] Spec.empty (Inv.init isFP N) (Abs.init N) hwf
-    (availRun_of_fits c evs (init N) [] Spec.empty (Inv.init isFP N) (Abs.init N) hwf hfit)
+    (hnt : ∀ e ∈ evs, isTPOpen e.2 = false)
+    (hfit : Spec.Fits c N Spec.empty (handledFrames c evs)) :
+    delivered c (init N) evs = (Spec.outputs (isFP c) Spec.empty (handledFrames c evs)).filterMap id :=
+  run_refines c evs (init N) [] Spec.empty (Inv.init (isFP c) N) (Abs.init N) (NoTP.init N) hwf hnt
+    (availRun_of_fits c evs (init N) [] Spec.empty (Inv.init (isFP c) N) (Abs.init N) (NoTP.init N) hwf hnt hfit)
 
 /-- the same under the weaker, directly checkable run condition `AvailRun` (the slot search never gives up and never
 recycles): this is exactly what the refinement proof needs -/
 theorem C02_refines_spec_avail (c : Cfg) (N : Nat) (evs : List (Nat × Frame)) (hwf : ∀ e ∈ evs, WFrame e.2)
-    (hav : AvailRun c (init N) evs) :
-    delivered c (init N) evs = (Spec.outputs isFP Spec.empty (handledFrames c evs)).filterMap id :=
-  run_refines c evs (init N) [] Spec.empty (Inv.init isFP N) (Abs.init N) hwf hav
+    (hnt : ∀ e ∈ evs, isTPOpen e.2 = false) (hav : AvailRun c (init N) evs) :
+    delivered c (init N) evs = (Spec.outputs (isFP c) Spec.empty (handledFrames c evs)).filterMap id :=
+  run_refines c evs (init N) [] Spec.empty (Inv.init (isFP c) N) (Abs.init N) (NoTP.init N) hwf hnt hav
 
 /-- corollary: if all handled frames of the history come from at most `N` (PGN, source) pairs, delivery is exact -/
 theorem C02_exact_up_to_slot_count (c : Cfg) (N : Nat) (evs : List (Nat × Frame)) (hwf : ∀ e ∈ evs, WFrame e.2)
+    (hnt : ∀ e ∈ evs, isTPOpen e.2 = false)
     (K : List (Nat × Nat)) (hK : K.length ≤ N) (hkeys : ∀ f ∈ handledFrames c evs, (f.pgn, f.src) ∈ K) :
-    delivered c (init N) evs = (Spec.outputs isFP Spec.empty (handledFrames c evs)).filterMap id :=
-  C02_refines_spec c N evs hwf
-    (fits_of_few_keys N K hK _ Spec.empty (fun _ _ h => absurd rfl h) hkeys)
+    delivered c (init N) evs = (Spec.outputs (isFP c) Spec.empty (handledFrames c evs)).filterMap id :=
+  C02_refines_spec c N evs hwf hnt
+    (fits_of_few_keys c N K hK _ Spec.empty (fun _ _ h => absurd rfl h) hkeys)
 
 /-- non-vacuity of the hypotheses of `C02_exact_up_to_slot_count` / `C02_refines_spec`: two senders, two slots, an
 abandoned message superseded by the next first frame, and the resulting exact delivery -/
@@ -151,7 +158,8 @@ example :
     let fr (src b0 b1 : Nat) : Frame := ⟨3, 129029, src, 255, 8, [b0, b1, 1, 2, 3, 4, 5, 6]⟩
     let evs : List (Nat × Frame) :=
       [(0, fr 1 0x20 20), (1, fr 2 0x40 9), (2, fr 1 0x40 9), (3, fr 2 0x41 7), (3, fr 1 0x41 0)]
-    (∀ e ∈ evs, WFrame e.2) ∧ ([(129029, 1), (129029, 2)] : List (Nat × Nat)).length ≤ 2 ∧
+    (∀ e ∈ evs, WFrame e.2) ∧ (∀ e ∈ evs, isTPOpen e.2 = false) ∧
+    ([(129029, 1), (129029, 2)] : List (Nat × Nat)).length ≤ 2 ∧
     (∀ f ∈ handledFrames {} evs, (f.pgn, f.src) ∈ [(129029, 1), (129029, 2)]) ∧
     delivered {} (init 2) evs =
       [⟨3, 129029, 2, 255, 9, [1, 2, 3, 4, 5, 6, 7, 1, 2]⟩, ⟨3, 129029, 1, 255, 9, [1, 2, 3, 4, 5, 6, 0, 1, 2]⟩] := by
@@ -165,6 +173,18 @@ example :
       [(0, fr 1 0x20 9), (1, ⟨6, 127250, 7, 255, 8, [9, 9, 9, 9, 9, 9, 9, 9]⟩), (1, fr 2 0x40 30), (2, fr 1 0x21 7)]
     delivered {} (init 2) evs =
       [⟨6, 127250, 7, 255, 8, [9, 9, 9, 9, 9, 9, 9, 9]⟩, ⟨3, 129029, 1, 255, 9, [1, 2, 3, 4, 5, 6, 7, 1, 2]⟩] := by
+  decide
+
+/-- a slot opened by a TP.CM RTS for PGN 126996 from source 9 (data packets lost) is not a continuation target: the
+fast packet 126996 of the same source (sequence id 0) that follows is delivered intact; and a PGN that is fast packet
+only through `ExtendFastPacketMessages` is reassembled when `ExtendSingleFrameMessages` is configured too -/
+example :
+    let rts : Frame := ⟨7, 60416, 9, 255, 8, [32, 133, 0, 19, 255, 0x14, 0xF0, 0x01]⟩
+    let fr (pgn b0 b1 : Nat) : Frame := ⟨6, pgn, 9, 255, 8, [b0, b1, 1, 2, 3, 4, 5, 6]⟩
+    delivered {} (init 3) [(0, rts), (5, fr 126996 0 9), (6, fr 126996 1 7)] =
+      [⟨6, 126996, 9, 255, 9, [1, 2, 3, 4, 5, 6, 7, 1, 2]⟩] ∧
+    delivered { sf1 := some [65280], fp1 := some [130000] } (init 3) [(5, fr 130000 0 9), (6, fr 130000 1 7)] =
+      [⟨6, 130000, 9, 255, 9, [1, 2, 3, 4, 5, 6, 7, 1, 2]⟩] := by
   decide
 
 end N2k.C02
